@@ -33,4 +33,6 @@ def average_branching_factor(feature_model: FeatureModel, precision: int = 2) ->
         if feature.get_relations():
             nof_branches += 1
             nof_children += sum(len(r.children) for r in feature.get_relations())
+    if nof_branches == 0:  # a model with the root alone has no branch at all
+        return 0.0
     return round(nof_children / nof_branches, precision)
